@@ -97,7 +97,7 @@ def concatenate(signals, /, axis=0):
         ndim = signals[0].ndim
         if not -ndim <= axis < ndim:
             raise ValueError(f"axis {axis} is out of bounds for signals of dimension {ndim}.")
-        axis %= ndim
+        axis = operator.index(axis) % ndim
 
     ref_sr = signals[0].sample_rate
     # Equal up to rounding: even a relative difference of 1e-6 is a drift of
